@@ -1,5 +1,94 @@
-pub fn cmd_signer(_: &str) -> String { "TODO".into() }
-pub fn cmd_verify(_: &str) -> String { "TODO".into() }
-pub fn cmd_edsign(_: &str) -> String { "TODO".into() }
-pub fn cmd_edpk(_: &str) -> String { "TODO".into() }
-pub fn cmd_sha512(_: &str) -> String { "TODO".into() }
+// Crypto commands. `signer` / `verify` drive roughenough's incremental MsgSigner / MsgVerifier;
+// `edsign` / `edpk` / `edverify` are the one-shot ed25519-dalek API used as the oracle;
+// `sha512` is ring's digest (compared against the Coq SHA-512).
+use ed25519_dalek::{Signature, Signer, SigningKey, Verifier, VerifyingKey};
+use roughenough::sign::{MsgSigner, MsgVerifier};
+
+use crate::util::{guarded, hex, unhex};
+
+pub fn oneshot_sign(seed: &[u8], msg: &[u8]) -> Option<Vec<u8>> {
+    let s: [u8; 32] = seed.try_into().ok()?;
+    Some(SigningKey::from_bytes(&s).sign(msg).to_bytes().to_vec())
+}
+
+pub fn oneshot_pk(seed: &[u8]) -> Option<Vec<u8>> {
+    let s: [u8; 32] = seed.try_into().ok()?;
+    Some(SigningKey::from_bytes(&s).verifying_key().to_bytes().to_vec())
+}
+
+/// None = key bytes are not a valid point / wrong lengths
+pub fn oneshot_verify(pk: &[u8], msg: &[u8], sig: &[u8]) -> Option<bool> {
+    let p: [u8; 32] = pk.try_into().ok()?;
+    let vk = VerifyingKey::from_bytes(&p).ok()?;
+    let sg = Signature::from_slice(sig).ok()?;
+    Some(vk.verify(msg, &sg).is_ok())
+}
+
+/// signer <seedhex> <op,op,...>   op = u:<hex> | s
+pub fn cmd_signer(arg: &str) -> String {
+    let mut it = arg.trim().splitn(2, ' ');
+    let seed = unhex(it.next().unwrap());
+    let ops: Vec<String> = it.next().unwrap_or("").split(',').map(|s| s.to_string()).collect();
+    let r = guarded(move || {
+        let mut s = MsgSigner::from_seed(&seed);
+        let mut out = vec![format!("PK={}", hex(&s.public_key_bytes()))];
+        for op in &ops {
+            if op == "s" {
+                out.push(hex(&s.sign()));
+            } else if let Some(h) = op.strip_prefix("u:") {
+                s.update(&unhex(h));
+            }
+        }
+        out.join(" ")
+    });
+    r.unwrap_or_else(|| "PANIC".into())
+}
+
+/// verify <pkhex> <chunk,chunk,...> <sighex>
+pub fn cmd_verify(arg: &str) -> String {
+    let p: Vec<&str> = arg.trim().split(' ').collect();
+    let pk = unhex(p[0]);
+    let chunks: Vec<Vec<u8>> = p[1].split(',').map(unhex).collect();
+    let sig = unhex(p[2]);
+    let r = guarded(move || {
+        let mut v = MsgVerifier::new(&pk);
+        for c in &chunks {
+            v.update(c);
+        }
+        v.verify(&sig)
+    });
+    match r {
+        None => "PANIC".into(),
+        Some(b) => format!("OK {}", b as u8),
+    }
+}
+
+pub fn cmd_edsign(arg: &str) -> String {
+    let p: Vec<&str> = arg.trim().split(' ').collect();
+    match oneshot_sign(&unhex(p[0]), &unhex(p.get(1).copied().unwrap_or("-"))) {
+        Some(s) => hex(&s),
+        None => "BAD".into(),
+    }
+}
+
+pub fn cmd_edpk(arg: &str) -> String {
+    match oneshot_pk(&unhex(arg.trim())) {
+        Some(s) => hex(&s),
+        None => "BAD".into(),
+    }
+}
+
+/// edverify <pk> <msg> <sig> -> 1 | 0 | BAD (key not a point / bad lengths)
+pub fn cmd_edverify(arg: &str) -> String {
+    let p: Vec<&str> = arg.trim().split(' ').collect();
+    match oneshot_verify(&unhex(p[0]), &unhex(p[1]), &unhex(p[2])) {
+        Some(true) => "1".into(),
+        Some(false) => "0".into(),
+        None => "BAD".into(),
+    }
+}
+
+pub fn cmd_sha512(arg: &str) -> String {
+    let d = ring::digest::digest(&ring::digest::SHA512, &unhex(arg.trim()));
+    hex(d.as_ref())
+}
